@@ -23,7 +23,7 @@ MAXU = 18446744073709551615
 
 FIXED = [
     "", "a", "a*", "a{2,3}", "foo.*bar", "foo.*bar.*baz", "RABA_([A-Za-z0-9+/]|%[0-9a-fA-F]{2}){32}",
-    "(?:a|bb){64}", "(?:a|bb){8}", "(a*)*", "(a*)+", "()*", "(|a)*", "(a|)+", "(?:a?){3}", "(?:a*)?", "(?:(?:a|b)+c)*",
+    "(?:a|bb){64}", "(?:a|bb){8}", "(?:a|bb){16}c", "x(?:ab|b){18}", "(a*)*", "(a*)+", "()*", "(|a)*", "(a|)+", "(?:a?){3}", "(?:a*)?", "(?:(?:a|b)+c)*",
     "(?:x(?:a|b))+", "(?:a|b+)*", "(?i)abc", "^foo$", "\\bfoo\\b", "(?:)", "a|", "|a", "(?:a|b)(?:a|b)c", "abc|bc|c",
     "(?:ab|b)c", "a+b", "x+abc", "(?:a|b)+", "(?:(?:a|b)z)*", "(?:a|ab)(?:c|bcd)", "(?i:k)", "(?i:s)b", "[^\\x00-\\x{10FFFF}]",
     "a[^\\x00-\\x{10FFFF}]|b", "\\x{100}", "\\x{100}|ab", "a\\bb", "(?:a{2}){2,3}", "(?:a{0,2}){2}", "(?:a|b){2,}c",
@@ -194,7 +194,7 @@ def parse_model(path):
     return res
 
 
-def execute(cases, exe, tag, la, lf, costlimit=300000):
+def execute(cases, exe, tag, la, lf, costlimit=300000, go_suffix_limit=3000000):
     d = os.path.join(BUILD, "run", "c18")
     os.makedirs(d, exist_ok=True)
     cf = os.path.join(d, "cases_%s.txt" % tag)
@@ -207,7 +207,7 @@ def execute(cases, exe, tag, la, lf, costlimit=300000):
             os.remove(p)
     ov = go_overlay({"internal/tools/regexAnalysis/zz_verif_c18_test.go": os.path.join(ROOT, "harness/c18/zz_verif_c18_test.go")}, "c18")
     rc, out, gosec = go_test("./internal/tools/regexAnalysis/", ov, "^TestVerifC18$",
-                             {"VERIF_CASES": cf, "VERIF_OUT": iout, "VERIF_COSTLIMIT": str(costlimit)}, timeout=900)
+                             {"VERIF_CASES": cf, "VERIF_OUT": iout, "VERIF_COSTLIMIT": str(go_suffix_limit)}, timeout=900)
     note = "" if rc == 0 else "go harness rc=%d: %s" % (rc, out[-1500:])
     impl = parse_go(iout)
     with open(mcf, "w") as f:
@@ -245,7 +245,7 @@ def judge(c, g, m):
         return ("impl", "AcceptedLength %s differs from the exact analysis %s (cache-free walk, proved exact)" % (g["len"], m["lenu"]))
     if m["lenc"] != g["len"]:
         return ("corr", "AcceptedLength %s, model of the cached walk %s" % (g["len"], m["lenc"]))
-    if g["suf"] != m["suf"]:
+    if g["suf"] != "skip" and g["suf"] != m["suf"] and g["suf"] != m.get("sufu"):
         return ("corr", "ConstantSuffix %s, model %s" % (g["suf"], m["suf"]))
     if m["af"] == "1":
         if g["acc"] != m["acc"]:
@@ -312,6 +312,7 @@ def main(tier, seed, replay=None):
             stats["cachefree_compared"] += m["lenu"] != "skip"
             stats["suffix_compared"] += m["suf"] != "skip"
             stats["nonempty_suffix"] += m["suf"] not in ("skip", "x")
+            stats["suffix_budget_not_in_code"] = stats.get("suffix_budget_not_in_code", 0) + (g["suf"] != "skip" and g["suf"] != m["suf"] and g["suf"] == m.get("sufu"))
             stats["finite_max"] += not g["len"].endswith(str(MAXU))
             stats["loops"] += g["len"].endswith(str(MAXU))
             stats["strings_through_matcher"] += len(g["acc"])
